@@ -504,6 +504,7 @@ type Exec struct {
 	Foreign   int64
 	TicksUsed int
 	Detached  int  // threads detached by the watchdog (see StuckTimeout)
+	StuckDump string // all goroutine stacks at the moment of the first detachment
 	Diverged  bool // the schedule prefix did not fit (only with Options.TolerateDivergence)
 	// MaxBlocked reports, per OpYield resource id, the set of thread ids that were
 	// observed disabled (blocked on a lock or channel) at some node — used by the
@@ -633,6 +634,10 @@ func (r *run) collect() {
 					r.running--
 					detach(i)
 					r.x.Detached++
+					if r.x.StuckDump == "" {
+						buf := make([]byte, 1<<16)
+						r.x.StuckDump = string(buf[:runtime.Stack(buf, true)])
+					}
 					r.x.Trace = append(r.x.Trace, fmt.Sprintf("t%d detached: no scheduling point within %v (blocked outside the model)", i, StuckTimeout))
 				}
 			}
@@ -1080,6 +1085,13 @@ func (e *Explorer) runOne(prefix []int) *Exec {
 	}
 	var v *Violation
 	switch {
+	case x.Detached > 0:
+		// (a detached thread leaves the harness's result slots unset: its check is not consulted)
+		tail := x.Trace
+		if len(tail) > 12 {
+			tail = tail[len(tail)-12:]
+		}
+		v = &Violation{Sig: "blocked-outside-model", Msg: fmt.Sprintf("a thread neither reached a scheduling point nor ended within %v; trace tail: %v; goroutines: %s", StuckTimeout, tail, x.StuckDump)}
 	case x.Foreign != 0:
 		st, _ := ForeignStack.Load().(string)
 		v = &Violation{Sig: "harness-foreign-goroutine", Msg: fmt.Sprintf("%d shim operations from uncontrolled goroutines; first: %s", x.Foreign, st)}
@@ -1090,7 +1102,12 @@ func (e *Explorer) runOne(prefix []int) *Exec {
 	case x.Livelock:
 		v = &Violation{Sig: "livelock", Msg: x.WaitInfo}
 	}
-	if cv := check(x); cv != nil && v == nil {
+	if x.Detached > 0 {
+		func() {
+			defer func() { recover() }()
+			check(x)
+		}()
+	} else if cv := check(x); cv != nil && v == nil {
 		v = cv
 	} else if cv != nil && v != nil {
 		// let the harness refine the signature of a deadlock/panic if it wants
